@@ -20,6 +20,7 @@ META = {
         "exact clauses use an explicit roughness length exp(-12..-3) m; the implicit-roughness path is exercised for the imbalance clauses and points whose roughness is NaN are counted as undefined_roughness (C10 allows NaN)",
         "'no downwind component' is asserted where cos(theta-theta_w) <= -1e-9 (the bins within rounding of exactly 90 degrees may go either way)",
         "linearity in E at fixed roughness: 1e-12 relative; bulk = sum(rate*df*dtheta) with independently computed steps: 1e-10 relative to sum|terms| (fastmath reduction)",
+        "in half of the cases the source-term objects have been used before on a spectrum with another grid of the same shape (object reuse); every clause must hold regardless",
         "batch independence: each point equals its single-point evaluation within 1e-13 of the field maximum (bit-for-bit equality of jitted kernels is not stable across machines)",
     ],
 }
@@ -57,6 +58,7 @@ def case(draw):
         "dis_params": {k: draw(fl(0.5, 1.5)) for k in DIS_PARAMS[dk]} if draw(st.integers(0, 2)) == 0 else {},
         "viscous": draw(st.sampled_from([0.0, 0.0, 0.1])),
         "dedt_fraction": draw(st.sampled_from([0.0, 0.2, -0.2])),
+        "reuse_terms": draw(st.booleans()),
     })
     return c
 
@@ -80,6 +82,8 @@ def make_terms(c):
 def run(c):
     from ocean_science_utilities.wavephysics.balance.balance import SourceTermBalance
     gen, dis, fac = make_terms(c)
+    if c.get("reuse_terms"):
+        W.prime_terms(c, gen, dis, positive=c["dissipation"] == "romero")
     f, d = W.axes(c)
     df, dd = W.steps(c)
     E = W.densities(c)                       # (n, nf, nd)
@@ -104,6 +108,8 @@ def run(c):
     z0 = W.da(np.exp(rep(c["log_z0"])), spec)
     it = c["input_type"]
     classes = ["dissipation_" + c["dissipation"], "input_" + it, f"nd{c['nd']}"]
+    if c.get("reuse_terms"):
+        classes.append("term_objects_used_before_on_another_grid_of_the_same_shape")
 
     R = np.asarray(gen.rate(spec, speed, wdir, roughness_length=z0, wind_speed_input_type=it).values)
     require(R.shape == Eb.shape and np.isfinite(R).all(), "wind_input_finite", f"shape={R.shape}")
